@@ -72,6 +72,8 @@ Eval vm_compute in (show prog_step "mjINT_IMPLICIT").
         seed = rng.randrange(1, 10**6); feat = ALLF if i % 3 == 0 else rng.randrange(0, ALLF + 1); nb = 1 + rng.randrange(6); en = rng.choice([0, 2, 4, 6]) | (rng.choice([0, 1, 2, 3]) << 8) | (rng.choice([0, 1, 2]) << 10) | (rng.choice([0, 1, 2, 3]) << 12) | (rng.choice([0, 0, 1, 1, 3] + list(range(2, 16))) << 14) | (rng.choice([0, 0, 0, 1]) << 18)
         if i % 4 == 3:
             en |= 1 << 19      # sleeping enabled (end-to-end clause only; the frame table assumes it off)
+        if i % 3 == 1:
+            en |= 1 << 20      # multi-input (PID) actuators appended: nu > nactuator
         for recv in range(5):
             integ = rng.choice([0, 1, 2, 3])
             D = {0: Deuler, 1: Drk4, 2: Dimpl, 3: Dimpl}[integ]
